@@ -17,7 +17,7 @@ if ! "$E" --json list </dev/null >/dev/null 2>"$T/err"; then echo "REPRODUCED C0
 ws
 A=$(echo '{"title":"a"}' | "$E" new task)
 if command -v strace >/dev/null 2>&1; then
-  N=$(strace -f -s 300 -e trace=write -o "$T/tr" "$E" --agent x claim </dev/null >/dev/null 2>&1; grep -c 'claimed_by\|"type":"claim"' "$T/tr")
+  N=$(strace -f -s 300 -e trace=write -o "$T/tr" "$E" --agent x claim </dev/null >/dev/null 2>&1; grep -c 'type.*claim' "$T/tr")
   echo "claim: write(2) calls carrying event lines: $N (1 = the whole command in one call)"
 fi
 exit $R
